@@ -25,6 +25,8 @@ pub struct ClientRig {
     _local_rx: mpsc::Receiver<LocalSwarmCmd>,
     pub pending: Vec<PendingGet>,
     pub gets_seen: usize,
+    /// every other network command the client issued, in order (the harness is the network: it answers these too)
+    pub other_cmds: Vec<NetworkSwarmCmd>,
 }
 
 impl ClientRig {
@@ -44,7 +46,7 @@ impl ClientRig {
         let peer = libp2p::PeerId::from(kp.public());
         let network = Network::new(net_tx, local_tx, peer, kp);
         let client = Client::verif_new(network.clone(), ant_evm::EvmNetwork::ArbitrumOne);
-        ClientRig { exec, client, network, net_rx, _local_rx: local_rx, pending: vec![], gets_seen: 0 }
+        ClientRig { exec, client, network, net_rx, _local_rx: local_rx, pending: vec![], gets_seen: 0, other_cmds: vec![] }
     }
 
     /// Poll every runnable task (FIFO) until none is runnable, collecting the reads the client asks for.
@@ -59,9 +61,12 @@ impl ClientRig {
             }
         }
         while let Ok(cmd) = self.net_rx.try_recv() {
-            if let NetworkSwarmCmd::GetNetworkRecord { key, sender, cfg } = cmd {
-                self.gets_seen += 1;
-                self.pending.push(PendingGet { key, cfg, reply: sender });
+            match cmd {
+                NetworkSwarmCmd::GetNetworkRecord { key, sender, cfg } => {
+                    self.gets_seen += 1;
+                    self.pending.push(PendingGet { key, cfg, reply: sender });
+                }
+                other => self.other_cmds.push(other),
             }
         }
     }
